@@ -74,46 +74,60 @@ def check_lwe_op(chk, v, name, spec):
     # R1 homomorphism + oracle
     k1 = "%s: the statement on a[i] and the statement on b are the same map, '%s'" % (name, op)
     problems = []
-    if len(a_st) != 1 or len(b_st) != 1 or others:
-        problems.append("expected one mask statement and one b statement, found %d/%d (+%d others)" % (len(a_st), len(b_st), len(others)))
+    if not a_st or len(b_st) != 1 or others:
+        problems.append("expected mask statements and one b statement, found %d/%d (+%d others)" % (len(a_st), len(b_st), len(others)))
     else:
-        A, B = a_st[0], b_st[0]
-        lp = A["loops"][-1] if A["loops"] else None
-        if lp is None or A["lv"][2] != lp["var"]:
-            problems.append("mask statement is not indexed by its loop variable")
-        else:
-            i = lp["var"]
-            sa = sym.idx(P(sample, "a"), i) if sample else None
-            sb = P(sample, "b") if sample else None
+        B = b_st[0]
+        sb = P(sample, "b") if sample else None
+        want_b = (fb or fa)(sb, pint, mu)
+        if B["op"] != op or B["val"] != want_b:
+            problems.append("b: '%s %s %s', expected '%s %s'" % (sym.show(B["lv"]), B["op"], sym.show(B["val"]), op, sym.show(want_b)))
+        terms = []
+        asm_st = [A for A in a_st if A["loops"] and A["loops"][-1].get("asm")]
+        if asm_st and len(a_st) != 1:
+            chk.broken("%s: assembly kernel mixed with other mask statements" % name)
+        reads_bad = []
+        for A in a_st:
+            lp = A["loops"][-1] if A["loops"] else None
+            e = A["lv"][2]
+            if lp is None or len(A["loops"]) != 1 or A["guards"]:
+                chk.broken("%s: mask statement at line %s is not in a single unguarded loop" % (name, A["line"]))
+            sa = sym.idx(P(sample, "a"), e) if sample else None
             want_a = fa(sa, pint, mu)
-            want_b = (fb or fa)(sb, pint, mu)
             if A["op"] != op or A["val"] != want_a:
                 problems.append("mask: '%s %s %s', the operation %s denotes '%s %s'" % (
                     sym.show(A["lv"]), A["op"], sym.show(A["val"]), name, op, sym.show(want_a)))
-            if B["op"] != op or B["val"] != want_b:
-                problems.append("b: '%s %s %s', expected '%s %s'" % (sym.show(B["lv"]), B["op"], sym.show(B["val"]), op, sym.show(want_b)))
             if fb is None and sample:
-                # the a/b substitution itself
                 mapped = sym.subst(A["val"], {sa: sb})
                 if mapped != B["val"] or A["op"] != B["op"]:
                     problems.append("b statement is not the mask statement under a[i] -> b")
-            # R2 coverage
-            k2 = "%s covers every mask coefficient for every n >= 1" % name
-            full = lp["lo"] == ZERO and lp["cmp"] == "<" and lp["hi"] == P(par, "n") and lp["step"] == I(1) and not A["guards"]
-            det = "range [%s %s %s)" % (sym.show(lp["lo"]), lp["cmp"], sym.show(lp["hi"]))
-            if lp.get("asm"):
-                cl = A["asm"]
-                det += "; strip-mined asm: %d-lane main loop (%s), tails %s" % (
-                    cl["facts"].get("main_width"), "guarded" if cl["facts"].get("main_loop_guarded") else "UNGUARDED", cl["facts"].get("tails"))
-                if not cl["ok"]:
-                    full = False
-                    det += "; " + "; ".join(cl["problems"])
-            chk.require(full, "R2", k2, where="%s:%s" % (f.file, A["line"]), ok=det, bad=det, variant=vn)
-            # R6 same index
+            terms.append((lp, e, 1))
             reads = [t for t in _elem_reads(A["val"]) if t[1] in (P(res, "a"), P(sample, "a") if sample else None)]
-            chk.require(all(t[2] == i for t in reads), "R6", "%s reads and writes the same index only (result may alias the operand)" % name,
-                        where=where, ok="%d element reads, all at index i" % len(reads), bad="cross-index read %s" % [sym.show(t) for t in reads if t[2] != i],
-                        variant=vn)
+            reads_bad += [t for t in reads if t[2] != e]
+        # R2 coverage
+        k2 = "%s covers every mask coefficient for every n >= 1" % name
+        A0 = a_st[0]
+        if asm_st:
+            lp = asm_st[0]["loops"][-1]
+            full = lp["lo"] == ZERO and lp["cmp"] == "<" and lp["hi"] == P(par, "n") and lp["step"] == I(1) and not A0["guards"]
+            det = "range [%s %s %s)" % (sym.show(lp["lo"]), lp["cmp"], sym.show(lp["hi"]))
+            cl = A0["asm"]
+            det += "; strip-mined asm: %d-lane main loop (%s), tails %s" % (
+                cl["facts"].get("main_width"), "guarded" if cl["facts"].get("main_loop_guarded") else "UNGUARDED", cl["facts"].get("tails"))
+            if not cl["ok"]:
+                full = False
+                det += "; " + "; ".join(cl["problems"])
+        else:
+            from sa import coverage
+            status, det = coverage.cover_1d(terms, P(par, "n"))
+            if status == "unknown":
+                chk.broken("%s: %s" % (name, det))
+            full = status == "proved"
+        chk.require(full, "R2", k2, where="%s:%s" % (f.file, A0["line"]), ok=det, bad=det, variant=vn)
+        # R6 same index
+        chk.require(not reads_bad, "R6", "%s reads and writes the same index only (result may alias the operand)" % name,
+                    where=where, ok="%d mask statement(s), every element read at the index written" % len(a_st),
+                    bad="cross-index read %s" % [sym.show(t) for t in reads_bad], variant=vn)
     chk.require(not problems, "R1", k1, where=where, ok="mask and b statements agree with the table", bad="; ".join(problems)[:500], variant=vn)
     # R3 variance
     k3 = "%s: variance annotation" % name
